@@ -262,23 +262,20 @@ func (c *JWKSCache) initJWKSFromFile(ctx context.Context, file string) error {
 		}
 	}()
 	go func() {
-		var firstDone bool
+		// Load the file immediately, signal that the initialization was complete and pass the error.
+		// (eventCh belongs to the watcher, which closes it when ctx ends: nothing else may send on it.)
+		c.logger.Debug("Loading JWKS file from disk")
+		loaded <- c.parseJWKSFile(file)
+		close(loaded)
 		for {
 			select {
-			case <-eventCh:
-				// When there's a change, reload the JWKS file
-				if firstDone {
-					c.logger.Debug("Reloading JWKS file from disk")
-				} else {
-					c.logger.Debug("Loading JWKS file from disk")
+			case _, ok := <-eventCh:
+				if !ok {
+					return
 				}
-				err := c.parseJWKSFile(file)
-				if !firstDone {
-					// The first time, signal that the initialization was complete and pass the error
-					loaded <- err
-					close(loaded)
-					firstDone = true
-				} else if err != nil {
+				// When there's a change, reload the JWKS file
+				c.logger.Debug("Reloading JWKS file from disk")
+				if err := c.parseJWKSFile(file); err != nil {
 					// Log errors only
 					c.logger.Errorf("Error reading JWKS from disk: %v", err)
 				}
@@ -288,9 +285,7 @@ func (c *JWKSCache) initJWKSFromFile(ctx context.Context, file string) error {
 		}
 	}()
 
-	// Trigger a refresh immediately and wait for the first reload
-	eventCh <- struct{}{}
-
+	// Wait for the first load
 	select {
 	case err := <-loaded:
 		// Error could be nil if everything is fine
